@@ -731,6 +731,19 @@ impl Rasn {
                 } else {
                     val
                 };
+                // a value that cannot be a `const` is a lazily initialised static: the function
+                // returns a copy of the value behind it
+                let val = if matches!(
+                    value,
+                    ASN1Value::LinkedElsewhereDefinedValue {
+                        can_be_const: false,
+                        ..
+                    }
+                ) {
+                    quote!(#val.clone())
+                } else {
+                    val
+                };
                 let method_name = self.default_method_name(parent_name, &member.name);
                 output.append_all(quote! {
                     fn #method_name() -> #ty {
